@@ -563,6 +563,7 @@ func runC10(p *core.Prog, r *core.Report) {
 		})
 		r.Check(ok, "C10.R3", "listSnapshots/kind", "files with Partial set go to Partials, the others to FullKVFiles", "classification by Partial not found or inverted", p.Pos(fn.Pos()))
 	})
+	r.Guard("C10.R2", "marshallers", "stateless marshallers", func() { checkMarshallersStateless(p, r, "C10.R2") })
 	r.Guard("C10.R2", "probes", "existence probes and listing retries", func() { checkExistenceProbes(p, r, "C10.R2") })
 	r.Guard("C10.R2", "file-kind", "full and partial file descriptors are not mixed up", func() {
 		complete, partial := p.FuncObj(pkgStore, "NewCompleteFileInfo"), p.FuncObj(pkgStore, "NewPartialFileInfo")
